@@ -502,7 +502,20 @@ def make_serial_world(driver, kinds, nsubs, with_map, own=None):
             async def co(w):
                 return await w.driver.send(QueryActualLevel(GearShort(9)))
             callers.append(Caller("own", co))
+        chunk_items = list(items)
+        if own == "own-split":
+            # every report reaches the host in two reads (cut after its 2nd byte); the item counts as delivered with the second
+            chunks, chunk_items = [], []
+            for fr, it in zip(frames, items):
+                if fr is None or len(fr) < 4:
+                    chunks.append(fr)
+                    chunk_items.append(it)
+                else:
+                    chunks += [fr[:2], fr[2:]]
+                    chunk_items += [None, it]
+            frames = chunks
         w = SerialWorld(driver, lambda b, v, i: ("none",), callers, foreign=frames)
+        w.chunk_items = chunk_items
         w.items = items
         w.nsubs = nsubs
         w.queues = {}
@@ -534,12 +547,15 @@ def make_serial_world(driver, kinds, nsubs, with_map, own=None):
             w.delivered += 1
 
         def d1():
-            n = len(w.items) - len(w.gateway.observe)
+            n = len(w.chunk_items) - len(w.gateway.observe)
             data = w.gateway.observe.pop(0)
+            item = w.chunk_items[n]
+            # one UART: while a report is half-way through, the gateway cannot start another message (gw:0 waits)
+            w.mid_report = item is None and data is not None
             if data is None:
-                w.loop.inject(fill_map, tuple(w.items[n]))
+                w.loop.inject(fill_map, tuple(item))
             else:
-                w.loop.inject(rx, data, tuple(w.items[n]))
+                w.loop.inject(rx, data, None if item is None else tuple(item))
         w._deliver1 = d1
 
         def d0():
@@ -573,6 +589,8 @@ def make_serial_world(driver, kinds, nsubs, with_map, own=None):
             if w.driver.is_connected and 0 not in w.queues and 0 not in w.qwin:
                 _qsub(w, 0)
             out = base_channels()
+            if getattr(w, "mid_report", False):
+                out = [c for c in out if c[0] != "gw:0"]
             return [c for c in out if c[0] != "gw:1" or 0 in w.queues]
         w.channels = channels
         base_finish = w.finish
@@ -892,6 +910,8 @@ def shards(tier):
         out.append(("serial", drv, [("event-devinst", "fill-map", "event-devinst"), ("event-devinst", "event-devinst", "fill-map", "event-devinst", "plain", "event-devinst"),
                                     ("fill-map", "event-devinst"), ("event-devinst", "fill-map"), ("edt+ext", "event-devinst", "fill-map", "edt+ext", "event-devinst")], 1, 1, "late"))
         out.append(("serial", drv, [("plain",), ("edt+ext",), ("unknown16",)], 1, 0, False, "own"))
+        # the gateway's reports arrive in two reads each while the application starts a send of its own in between
+        out.append(("serial", drv, [("plain",), ("plain", "query+answer"), ("edt+ext", "plain"), ("event", "plain")], 2, 0, False, "own-split"))
     for drv in ("luba", "sci"):
         for first in range(len(SUB_OPS)):
             out.append(("subs", drv, first, 6 if tier == "quick" else 7))
